@@ -352,6 +352,9 @@ func (c *Ctx) classifyLoop(fn *ssa.Function, l *natLoop) (class string, ok bool,
 		}
 	}
 	if len(calls) == 0 {
+		if cls, ok, why, is := c.shrinkingSliceLoop(fn, l); is {
+			return cls, ok, why
+		}
 		// loop over a buffer length: for x.Len() != 0 { x.Read(...) } handled above as consuming; nothing here
 		return "unknown", false, "loop is neither a range loop, a counted loop nor an input-consuming loop"
 	}
@@ -626,4 +629,79 @@ func (c *Ctx) ruleLoopAlias(rule string, in func(*ssa.Function) bool) int {
 		}
 	}
 	return n
+}
+
+// shrinkingSliceLoop: for len(x) > 0 { ...; x = rest }. The loop makes progress
+// if every value carried back into x is a strictly shorter suffix of x. A suffix
+// cut at a positive constant is; the "rest" result of encoding/pem.Decode is only
+// when a block was found (without one it is the whole input), so the back edge
+// must lie behind block != nil.
+func (c *Ctx) shrinkingSliceLoop(fn *ssa.Function, l *natLoop) (class string, ok bool, why string, is bool) {
+	for _, in := range l.header.Instrs {
+		phi, isPhi := in.(*ssa.Phi)
+		if !isPhi {
+			break
+		}
+		if _, isSlice := phi.Type().Underlying().(*types.Slice); !isSlice {
+			continue
+		}
+		// the exit test is on len(phi)
+		tested := false
+		for bi := range l.body {
+			b := fn.Blocks[bi]
+			if len(b.Succs) != 2 {
+				continue
+			}
+			ifi, isIf := b.Instrs[len(b.Instrs)-1].(*ssa.If)
+			if !isIf || l.body[b.Succs[0].Index] && l.body[b.Succs[1].Index] {
+				continue
+			}
+			if cmp, isCmp := ifi.Cond.(*ssa.BinOp); isCmp {
+				for _, side := range []ssa.Value{cmp.X, cmp.Y} {
+					if lc, isC := ir.StripConv(side).(*ssa.Call); isC && ir.CallID(lc) == "builtin.len" && lc.Call.Args[0] == ssa.Value(phi) {
+						tested = true
+					}
+				}
+			}
+		}
+		if !tested {
+			continue
+		}
+		for k, e := range phi.Edges {
+			pred := phi.Block().Preds[k]
+			if !l.body[pred.Index] {
+				continue
+			}
+			switch x := e.(type) {
+			case *ssa.Slice:
+				if x.X == ssa.Value(phi) && x.Low != nil {
+					if n, isK := ir.ConstInt(x.Low); isK && n > 0 {
+						continue
+					}
+				}
+				return "unknown", false, "", false
+			case *ssa.Extract:
+				call, isC := x.Tuple.(*ssa.Call)
+				if !isC || ir.CallID(call) != "encoding/pem.Decode" || x.Index != 1 || call.Call.Args[0] != ssa.Value(phi) {
+					return "unknown", false, "", false
+				}
+				// the edge must be taken only when a block was found
+				guarded := false
+				for _, ce := range ir.DominatingConds(fn, pred) {
+					if v, nilWhenTrue, isNC := ir.NilCheck(ce.RawCond); isNC && ce.RawTruth != nilWhenTrue {
+						if bx, isE := v.(*ssa.Extract); isE && bx.Tuple == ssa.Value(call) && bx.Index == 0 {
+							guarded = true
+						}
+					}
+				}
+				if !guarded {
+					return "shrinking", false, "the loop continues with the rest returned by encoding/pem.Decode also when no block was found: then the rest is the whole input and the loop never ends", true
+				}
+			default:
+				return "unknown", false, "", false
+			}
+		}
+		return "shrinking", true, "", true
+	}
+	return "", false, "", false
 }
